@@ -1,21 +1,21 @@
 #!/venv/bin/python
 """write /verif/seeded/SWEEP.md (development wave) and HELDOUT.md (held-out wave) from the meta.json files"""
 import json, os, glob
-rows = {'dev': [], 'heldout': [], 'heldout2': [], 'heldout3': [], 'heldout4': [], 'heldout5': [], 'refactor': [], 'refactor2': [], 'refactor3': []}
+rows = {'dev': [], 'heldout': [], 'heldout2': [], 'heldout3': [], 'heldout4': [], 'heldout5': [], 'heldout6': [], 'refactor': [], 'refactor2': [], 'refactor3': []}
 for d in sorted(glob.glob('/verif/seeded/C*')):
     m = json.load(open(d + '/meta.json'))
     wave = m.get('wave', 'dev')
     rows[wave].append((os.path.basename(d), m.get('site', '?'), (m.get('summary', '') or '').replace('\n', ' ')[:150],
                        (m.get('needs_to_manifest', '') or '').replace('\n', ' ')[:120], ', '.join(m.get('caught_by', [])) or '**missed**',
                        m.get('not_caught_reason', ''), ', '.join(m.get('caught_by_initial', []) + ['exit 2: ' + x for x in m.get('caught_by_initial_exit2', [])]) or 'missed'))
-FROZEN = {'heldout': '44b4fcb', 'heldout2': 'a476181', 'heldout3': '158d893', 'heldout4': 'bff74e2', 'heldout5': 'e62add6'}
-for wave, fn, title in (('dev', 'SWEEP.md', 'Development wave'), ('heldout', 'HELDOUT.md', 'Held-out wave'), ('heldout2', 'HELDOUT2.md', 'Second held-out wave'), ('heldout3', 'HELDOUT3.md', 'Third held-out wave'), ('heldout4', 'HELDOUT4.md', 'Fourth held-out wave'), ('heldout5', 'HELDOUT5.md', 'Fifth held-out wave')):
+FROZEN = {'heldout': '44b4fcb', 'heldout2': 'a476181', 'heldout3': '158d893', 'heldout4': 'bff74e2', 'heldout5': 'e62add6', 'heldout6': 'b3bf94d'}
+for wave, fn, title in (('dev', 'SWEEP.md', 'Development wave'), ('heldout', 'HELDOUT.md', 'Held-out wave'), ('heldout2', 'HELDOUT2.md', 'Second held-out wave'), ('heldout3', 'HELDOUT3.md', 'Third held-out wave'), ('heldout4', 'HELDOUT4.md', 'Fourth held-out wave'), ('heldout5', 'HELDOUT5.md', 'Fifth held-out wave'), ('heldout6', 'HELDOUT6.md', 'Sixth held-out wave')):
     if not rows[wave]:
         continue
     with open('/verif/seeded/' + fn, 'w') as f:
         n = len(rows[wave]); c = sum(1 for r in rows[wave] if 'missed' not in r[4])
         f.write('# %s of seeded changes: %d / %d reported by a check\n\n' % (title, c, n))
-        f.write('Produced by `tools/sweep_seeds.py` (applies each patch to /repo, runs every quick check, resets the tree).\n\n')
+        f.write('Produced by `tools/sweep_seeds.py` (applies each patch to /repo, runs every quick check, resets the tree); the column for the committed checks was last refreshed with `tools/presweep.py --record`, which does the same on private scratch worktrees of /repo.\n\n')
         if wave in FROZEN:
             ci = sum(1 for r in rows[wave] if r[6] != 'missed' and not r[6].startswith('exit 2'))
             ce = sum(1 for r in rows[wave] if r[6].startswith('exit 2'))
